@@ -671,6 +671,22 @@ func c06Suite(c *core.Collector, seed uint64, batch int, conns, nreq int, wraps 
 			}
 		}(i)
 	}
+	// a platform command whose body does not fit the length field, between replies and an ordinary command
+	for i := 0; i < 2; i++ {
+		wg.Add(1)
+		go func(i int) {
+			defer wg.Done()
+			viol, incon, n := c06OversizedCommand(srv, batch*1000+890+i)
+			c.Evals(int64(n))
+			c.Count("frames_numbered_around_an_oversized_command", int64(n))
+			if incon {
+				c.Inconclusive()
+			}
+			for _, v := range viol {
+				c.Violate(v[0], v[1], nil)
+			}
+		}(i)
+	}
 	// tail bursts: request + non-replying messages in one write; the reply must not wait for later traffic
 	for i := 0; i < 2+conns/6; i++ {
 		wg.Add(1)
